@@ -184,6 +184,8 @@ def run(ctx):
     else:
         scripts = [c for c in ctx.corpus if c.get("scripted")] + [gen_script(ctx.rng) for _ in range(40 if ctx.quick() else 500)]
         cfgs = [c for c in ctx.corpus if not c.get("scripted")] + [tu.gen_config(ctx.rng) for _ in range(16 if ctx.quick() else 200)]
+        # data with a flat-lined stretch (exactly repeated rows): a cluster made of identical windows is NOT under-populated
+        cfgs += [tu.flat_config(ctx.rng) for _ in range(3 if ctx.quick() else 30)]
         for i, c in enumerate(cfgs):
             if i % 3 == 2:
                 # the solver tasks of a round complete OUT OF ORDER (as with a real multi-worker pool); >= 3 clusters so
